@@ -1003,6 +1003,78 @@ def run_seq_history(ops, disciplined):
   final = [[S(k), [S(x) for x in v]] for k, v in mio._root.items()]
   return outs, final, hits
 
+# ------------------------------------------------------------------------------------------------
+# every kind of record sequence the registry offers x boundary records x positions x write/append/reopen histories
+BOUNDARY_RECORDS = [
+    ('empty', ''), ('blank', ' '), ('blanks', '   '), ('tab', '\t'), ('newline-terminated', 'a\n'), ('only-newline', '\n'),
+    ('two-newlines', 'b\n\n'), ('carriage-return', 'a\rb'), ('cr-terminated', 'a\r'), ('crlf-terminated', 'a\r\n'),
+    ('vertical-tab-formfeed', 'a\x0bb\x0cc'), ('unicode-line-separators', 'a\u2028b\u2029c\x85d\x1ce'), ('nul', 'a\x00b'),
+    ('unicode', '\xe9\u4e2d\U0001F600'), ('quote-backslash', '"\\'), ('long', 'x' * 70000), ('json-looking', '{"a": 1}'), ('null-word', 'null'),
+]
+SEQ_KINDS = ['line-mem', 'line-std', 'memory', 'jsonl-mem', 'jsonl-std', 'jsonl-memory']
+SEQ_SHAPES = [('w',), ('w', 'a'), ('w', 'a', 'a'), ('w', 'w'), ('a',), ('a', 'a')]
+
+def seq_kind_path(kind, std_dir, tag):
+  return {'line-mem': '/mem/sq/%s.txt' % tag, 'line-std': os.path.join(std_dir, '%s.txt' % tag), 'memory': '/mem/sq/%s.mem' % tag,
+          'jsonl-mem': '/mem/sq/%s.jsonl' % tag, 'jsonl-std': os.path.join(std_dir, '%s.jsonl' % tag), 'jsonl-memory': '/mem/sq/%s.mem' % tag}[kind]
+
+def seq_expected(kind, record):
+  """what reading gives back for a record that was added: the line format strips trailing line feeds (documented:
+  `record.rstrip('\\n')`); every other kind returns the record itself"""
+  return record.rstrip('\n') if kind.startswith('line') else record
+
+def seq_record_allowed(kind, record):
+  """line sequences cannot hold a line feed inside a record (the format itself)"""
+  if kind.startswith('line') and '\n' in record.rstrip('\n'): return False
+  return True
+
+def run_seq_boundary(kind, path, batches, shape):
+  """batches[i] is written with mode shape[i]; returns [(signature, what)] comparing what is read back with what was added"""
+  p = pg()
+  jsonl = kind.startswith('jsonl')
+  opener = p.open_jsonl if jsonl else p.io.open_sequence
+  expected = []
+  try:
+    for mode, recs in zip(shape, batches):
+      with opener(path, mode) as f:
+        for rec in recs:
+          f.add(rec)
+      expected = ([] if mode == 'w' else expected) + [seq_expected(kind, x) for x in recs]
+    with opener(path, 'r') as f:
+      got = list(iter(f))
+  except Exception as e:
+    return [('C05/sequence/%s/raises-%s' % (kind, type(e).__name__), '%s %s: %s: %s' % (kind, shape, type(e).__name__, str(e)[:100]))]
+  if got != expected:
+    first = next((i for i, (a, b) in enumerate(zip(got, expected)) if a != b), min(len(got), len(expected)))
+    return [('C05/sequence/%s/records-differ' % kind,
+             '%s sequence written as %s: %d records added, %d read back; first difference at %d: added %r, read %r'
+             % (kind, '+'.join(shape), len(expected), len(got), first, (expected[first:first + 1] or ['<none>'])[0][:40], (got[first:first + 1] or ['<none>'])[0][:40]))]
+  return []
+
+def seq_boundary_cases(r, n_random):
+  """(kind, shape, batches, label): every boundary record first / in the middle / last, in every kind and history shape"""
+  out = []
+  filler = ['f1', 'f2']
+  for name, b in BOUNDARY_RECORDS:
+    for pos in ('first', 'middle', 'last', 'alone', 'twice'):
+      recs = {'first': [b, 'f1', 'f2'], 'middle': ['f1', b, 'f2'], 'last': ['f1', 'f2', b], 'alone': [b], 'twice': [b, b, 'f1']}[pos]
+      for kind in SEQ_KINDS:
+        if not seq_record_allowed(kind, b): continue
+        for shape in SEQ_SHAPES:
+          k = len(shape)
+          if shape == ('w', 'w'):
+            batches = [['old1', b, 'old2'], recs]
+          else:
+            cuts = sorted(r.randint(0, len(recs)) for _ in range(k - 1))
+            batches = [recs[i:j] for i, j in zip([0] + cuts, cuts + [len(recs)])]
+          out.append((kind, shape, batches, '%s-%s' % (name, pos)))
+  pool = [b for _, b in BOUNDARY_RECORDS if len(b) < 100] + ['r%d' % i for i in range(6)]
+  for _ in range(n_random):
+    kind = r.choice(SEQ_KINDS); shape = r.choice(SEQ_SHAPES)
+    batches = [[x for x in (r.choice(pool) for _ in range(r.randint(0, 4))) if seq_record_allowed(kind, x)] for _ in shape]
+    out.append((kind, shape, batches, 'random'))
+  return out
+
 def jsonl_oracle(r, vg, path):
   """values appended with pg.open_jsonl are the values read back (w, then a, then r)"""
   p = pg()
@@ -1519,6 +1591,36 @@ def run(ctx):
     for o, a in zip(ops, outs):
       ctx.hist('seq_ops', '%s:%s' % (o['op'], {8: 'ValueError', 9: 'bad-handle', 99: 'other'}.get(a[0], 'ok')))
     oracle_evals += 1
+  # ---- (c') every sequence kind x boundary records x positions x write / append / reopen -----------------------------------
+  from pyglove.core.io import sequence as sq
+  std_sq = os.path.join(ctx.workdir, 'sq'); os.makedirs(std_sq, exist_ok=True)
+  bcases = seq_boundary_cases(r, ctx.scale(150, 3000))
+  if not ctx.thorough:
+    # quick tier: every boundary record x position x kind, with a rotating history shape
+    keep, seen = [], {}
+    for c in bcases:
+      key = (c[0], c[3])
+      seen[key] = seen.get(key, 0) + 1
+      if c[3] == 'random' or (seen[key] - 1) == (hash((c[0], c[3])) % len(SEQ_SHAPES)) or c[1] == ('w', 'a'):
+        keep.append(c)
+    bcases = keep
+  for bi, (kind, shape, batches, label) in enumerate(bcases):
+    if bi > 200 and over('sequence-boundaries', bi, len(bcases), 0.93): break
+    fresh_memfs(); sq._registry._registry['mem'] = sq.MemorySequenceIO()
+    path = seq_kind_path(kind, std_sq, 'b%d' % bi)
+    hits = run_seq_boundary(kind, path, batches, shape)
+    for sig, what in hits:
+      ctx.hit(sig, clean(what), dict(part='sequence', kind=kind, shape=list(shape), batches=batches, label=label))
+    if kind == 'line-mem':
+      # the same history through the model of the memory file system (OSeqWrite / OSeqRead)
+      fs = fresh_memfs()
+      ops = [dict(op='seqwrite', path=path, mode=m, records=b) for m, b in zip(shape, batches)] + [dict(op='seqread', path=path)]
+      mo, texts, mhits = run_fs_history(ops, lambda q_: q_)
+      add_case([1, fs_case_tree(ops, texts)], [mo, dump_memfs(fs)], dict(part='fs', ops=ops))
+    if kind.endswith('std') and os.path.exists(path): os.remove(path)
+    ctx.count(('sequence', kind, label, shape, json.dumps(batches)[:200]), nontrivial=True, kind='sequence-' + kind)
+    ctx.hist('sequence_boundary', label.rsplit('-', 1)[0] if label != 'random' else 'random')
+    oracle_evals += 1
   njl = ctx.scale(150, 800)
   std_jl = os.path.join(ctx.workdir, 'jl'); os.makedirs(std_jl, exist_ok=True)
   for i in range(njl):
@@ -1665,6 +1767,12 @@ def replay(ctx, rp):
       os.chdir(d); hits = bare_name_oracle()
     finally:
       os.chdir(cwd)
+  elif part == 'sequence':
+    fresh_memfs()
+    from pyglove.core.io import sequence as sq
+    sq._registry._registry['mem'] = sq.MemorySequenceIO()
+    d = os.path.join(ctx.workdir, 'sqr'); os.makedirs(d, exist_ok=True)
+    hits = run_seq_boundary(c['kind'], seq_kind_path(c['kind'], d, 'replay'), c['batches'], tuple(c['shape']))
   elif part == 'jsonl':
     import random
     r = random.Random(1)
